@@ -81,17 +81,18 @@ func stepInstances(fn string, tier string, seed int64, hist int64, scale int, ex
 func stepInstancesDiv(fn string, tier string, seed int64, hist int64, scale, div int, extra map[string]int64) []run.Instance {
 	var out []run.Instance
 	rng := rand.New(rand.NewSource(seed + 12345))
-	// sampling rate per category in percent (quick tier)
-	rate := map[int]int{0: 1 * scale, 1: 100, 2: 12 * scale, 3: 100, 4: 25 * scale, 5: 3 * scale, 6: 10 * scale, 7: 100}
+	// sampling rate per category in percent (base); quick: base*scale/div, thorough: base*8
+	rate := map[int]int{0: 1, 1: 100, 2: 12, 3: 100, 4: 25, 5: 3, 6: 10, 7: 100}
 	for stm := 0; stm < 2; stm++ {
 		for _, m := range geomMoves(stm) {
 			cat := category(m, stm)
 			r := rate[cat] * 10
 			if cat != 1 && cat != 7 && cat != 3 {
-				r /= div
-			}
-			if tier == "thorough" {
-				r *= 8 // thorough: eight times the quick sampling rates (every special category completely)
+				if tier == "thorough" {
+					r *= 8 // thorough: eight times the base sampling rates (every special category completely)
+				} else {
+					r = r * scale / div
+				}
 			}
 			if tier != "exhaustive" && rng.Intn(1000) >= r {
 				continue
@@ -115,11 +116,11 @@ func init() {
 			Bounds: []string{
 				"one make+undo step from an ARBITRARY valid position (all 64 cells, castling, e.p., clocks symbolic) for a concrete (side, from, to, promotion) case; nesting to any depth follows by induction because the restored state is identical",
 				"hash history: 2 arbitrary earlier entries in the case split; additionally histories of 0, 126, 127 and 128 earlier entries (around the slice capacity 128) for three moves; longer histories follow from the same step since undo pops exactly what make pushed",
-				"quick tier: every castling and double-push case and a seeded (VERIF_SEED) sample of promotion, en-passant, rook-home, king-home and ordinary geometric (from,to) cases; thorough: eight times the quick sampling rates (all castling, double-push, promotion and en-passant cases, ~10% of the ordinary ones); tier `exhaustive` runs all 3760 (side, from, to, promotion) cases (hours)",
+				"quick tier: every castling and double-push case and a seeded (VERIF_SEED) sample of the other categories (promotions 24%, en-passant geometry 50%, rook-home squares 6%, king-home squares 20%, ordinary (from,to) pairs 2%); thorough: all castling, double-push, promotion and en-passant cases, 24% of the rook-home, 80% of the king-home and 8% of the ordinary ones; tier `exhaustive` runs all 3760 (side, from, to, promotion) cases (hours)",
 			},
 			Assumptions: []string{"validity predicate of the property (VpValid) and pseudo-legality by the mailbox FIDE specification (VpPseudoLegal)"},
 		}
-		s.Instances = stepInstances("VpH_C03_undo", tier, seed, 2, 1, nil)
+		s.Instances = stepInstances("VpH_C03_undo", tier, seed, 2, 2, nil)
 		for stm := int64(0); stm < 2; stm++ {
 			s.Instances = append(s.Instances, run.Instance{Pkg: "board", Func: "VpH_C03_null", Params: map[string]int64{"stm": stm, "hist": 2}})
 		}
@@ -169,11 +170,11 @@ func init() {
 		s := stepSpec("C02")
 		s.Bounds = []string{
 			"one MakeMove step from an ARBITRARY valid position (64 symbolic cells, castling, e.p., clocks, 2 earlier history entries) for a concrete (side, from, to, promotion) case; game histories of any length follow by induction because the successor is asserted valid again",
-			"quick: all castling and all double-push cases, seeded sample of the other categories; thorough: eight times the quick rates; tier `exhaustive`: all 3760 cases",
+			"quick: all castling and all double-push cases, seeded sample of the other categories (promotions 12%, en-passant geometry 25%, rook-home 3%, king-home 10%, ordinary 1%); thorough: eight times these rates; tier `exhaustive`: all 3760 cases",
 			"halfmove clock 0..127, fullmove number 1..2^31-1",
 		}
 		s.Exclusions = []string{"fifty-clock-wrap"}
-		s.Instances = stepInstancesDiv("VpH_C02_step", tier, seed, 2, 1, 2, nil)
+		s.Instances = stepInstancesDiv("VpH_C02_step", tier, seed, 2, 1, 1, nil)
 		s.Witnesses = map[string]run.Instance{
 			"fifty-clock-wrap": {Pkg: "board", Func: "VpH_C02_step", Params: map[string]int64{"stm": 0, "from": 6, "to": 21, "promo": 0, "hist": 2}},
 		}
@@ -193,10 +194,10 @@ func init() {
 		s := stepSpec("C04")
 		s.Bounds = []string{
 			"one MakeMove / MakeNullMove step from an ARBITRARY valid position whose current hash equals the from-scratch hash; any interleaving of moves and null moves follows by induction",
-			"quick: seeded sample of the (side, from, to, promotion) case split (all castling cases); thorough: eight times the quick rates; tier `exhaustive`: all 3760 cases",
+			"quick: all castling and double-push cases, seeded sample of the rest (promotions 24%, en-passant geometry 50%, rook-home 6%, king-home 20%, ordinary 2%); thorough: all special categories, 8% of the ordinary cases; tier `exhaustive`: all 3760 cases",
 		}
 		s.Assumptions = append(s.Assumptions, "64-bit Zobrist keys are taken from the real init code (native dump); hash equality is exact term equality, no collision assumption is needed for this property")
-		s.Instances = stepInstances("VpH_C04_hash", tier, seed, 2, 1, nil)
+		s.Instances = stepInstances("VpH_C04_hash", tier, seed, 2, 2, nil)
 		for stm := int64(0); stm < 2; stm++ {
 			s.Instances = append(s.Instances,
 				run.Instance{Pkg: "board", Func: "VpH_C04_null", Params: map[string]int64{"stm": stm, "hist": 2}},
